@@ -5,6 +5,7 @@ package absnfs
 func init() {
 	vpRegister("VPH_C23_limits", VPH_C23_limits)
 	vpRegister("VPH_C23_read", VPH_C23_read)
+	vpRegister("VPH_C23_raised_on_open_connection", VPH_C23_raised_on_open_connection)
 }
 
 type vpFsinfo struct{ rtmax, rtpref, rtmult, wtmax, wtpref, wtmult, dtpref uint32 }
@@ -108,4 +109,60 @@ func VPH_C23_read() {
 	n := rd.u32()
 	vpAssert(n >= 1, "read-before-eof-returns-data")
 	vpAssert(n <= cnt, "read-not-more-than-requested")
+}
+
+// VPH_C23_raised_on_open_connection: TransferSize is raised at run time while a client's
+// record-marking connection is open. On that same connection the next FSINFO advertises the new
+// maximum and a WRITE of a size between the old and the new maximum is served: nothing about the
+// connection remembers the limit that was in force when it was opened.
+func VPH_C23_raised_on_open_connection() {
+	fs := vpNewFS()
+	fs.addDir("/d")
+	fs.addFileData("/d/x", []byte{})
+	env := vpServer(fs, ExportOptions{TransferSize: 1024})
+	env.srv.options.UseRecordMarking = true
+	h := env.handleFor("/d/x")
+	newSize := 16384
+	count := []int{1024, 1025, 5121, 8192, 16384}[vpChoose("count", 0, 4)]
+	data := make([]byte, count)
+	var f, w vpBuf
+	f.fh(h)
+	w.fh(h).u64(0).u32(uint32(count)).u32(2).opaque(data)
+	var in []byte
+	in = append(in, vpClientCall(301, NFS_PROGRAM, NFS_V3, NFSPROC3_FSINFO, f.Bytes())...)
+	cut := len(in)
+	in = append(in, vpClientCall(302, NFS_PROGRAM, NFS_V3, NFSPROC3_FSINFO, f.Bytes())...)
+	in = append(in, vpClientCall(303, NFS_PROGRAM, NFS_V3, NFSPROC3_WRITE, w.Bytes())...)
+	conn := &vpConn{in: in, remote: "10.0.0.5:700"}
+	conn.hookAt = cut
+	conn.hook = func() {
+		if vpBool("via-UpdateExportOptions") {
+			o := env.nfs.GetExportOptions()
+			o.TransferSize = newSize
+			vpAssert(env.nfs.UpdateExportOptions(o) == nil, "update-accepted")
+		} else {
+			env.nfs.UpdateTuningOptions(func(t *TuningOptions) { t.TransferSize = newSize })
+		}
+		vpReach("raised-between-calls")
+	}
+	env.srv.handleConnectionWithRecordMarking(conn, env.h)
+	replies, ok := vpSplitRecords(conn.out)
+	vpAssert(vpAnd(ok, len(replies) == 3), "every-call-on-the-connection-answered")
+	if !ok || len(replies) != 3 {
+		return
+	}
+	r2 := &vpRd{b: replies[1]}
+	vpRPCReplyHeader(r2)
+	vpAssert(r2.u32() == NFS_OK, "fsinfo-ok")
+	r2.postOp()
+	r2.u32()
+	r2.u32()
+	r2.u32()
+	wtmax := r2.u32()
+	vpAssert(wtmax == uint32(newSize), "fsinfo-on-the-open-connection-advertises-the-new-maximum")
+	r3 := &vpRd{b: replies[2]}
+	hd := vpRPCReplyHeader(r3)
+	vpAssert(hd.xid == 303, "write-reply-xid")
+	vpAssert(r3.u32() == NFS_OK, "write-within-the-advertised-maximum-served")
+	vpAssert(fs.nodes["/d/x"].size == int64(count), "data-written")
 }
